@@ -28,6 +28,8 @@ var c05Table = map[byte]refmodel.Behaviour{
 	'e': {refmodel.SAddErr, refmodel.SNext, refmodel.SProbe},
 	'f': {refmodel.SAddErr},
 	'x': {refmodel.SNext, refmodel.SWrite, refmodel.SProbe}, // writes after the rest of the chain returned
+	'y': {refmodel.SNext, refmodel.SWriteStr, refmodel.SProbe}, // ... through io.WriteString(c.Resp, ...)
+	'v': {refmodel.SWriteStr, refmodel.SNext},
 }
 
 const c05Codes = "pnqabctsmwuz"
@@ -197,13 +199,23 @@ func c05Gen(tier string, emit func(c05Case)) {
 			}
 		}
 	}
+	// body bytes sent through io.WriteString(c.Resp, ...) (the recorder, like net/http's writer, is an io.StringWriter)
+	for n := 2; n <= 3; n++ {
+		for _, sp := range splitsOf(n - 1) {
+			vectors(c05Codes+"yv", n, func(b string) {
+				if strings.ContainsAny(b, "yv") && strings.ContainsAny(b, "tsmzabc") {
+					push(chainShape{N: n, Split: sp, Via: viaFor(sp), Beh: b})
+				}
+			})
+		}
+	}
 	// a transparent writer wrapper installed by a first middleware ('W'), and a router that served a hijacking request
 	// and a 404 before ('H'): an abort's status still decides the response (SetStatus, which by design bypasses
 	// c.Resp, is left out of the wrapped chains)
 	for n := 1; n <= 3; n++ {
 		for _, sp := range splitsOf(n - 1) {
 			for _, hk := range []string{"W", "H", "X", "D"} {
-				codes := "pnqabctsmwzx"
+				codes := "pnqabctsmwzxyv"
 				if hk != "W" {
 					codes += "u"
 				}
@@ -279,7 +291,7 @@ func c05Run(c c05Case, st *fw.Stats) []fw.Viol {
 		st.Max("max_chain", int64(sh.N))
 	}
 	if st.WantSample() {
-		st.Sample(map[string]any{"chain": c.Shapes[0], "codes": "x=Next,write,probe e=AddError,Next,probe f=AddError p=plain n=Next q=Next,probe a=probe,Abort,probe b=Abort,probe,Next,probe c=Next,probe,Abort,probe t=AbortThen,probe s=AbortWithStatus,probe m=AbortWithStatus(msg),probe,Next w=write,Next,probe u=SetStatus(201),Next z=AbortWithStatus(200),probe D=built-in 404 responder r=HandleContext to a route whose middleware aborts,probe,Next,probe"})
+		st.Sample(map[string]any{"chain": c.Shapes[0], "codes": "y=Next,io.WriteString,probe v=io.WriteString,Next x=Next,write,probe e=AddError,Next,probe f=AddError p=plain n=Next q=Next,probe a=probe,Abort,probe b=Abort,probe,Next,probe c=Next,probe,Abort,probe t=AbortThen,probe s=AbortWithStatus,probe m=AbortWithStatus(msg),probe,Next w=write,Next,probe u=SetStatus(201),Next z=AbortWithStatus(200),probe D=built-in 404 responder r=HandleContext to a route whose middleware aborts,probe,Next,probe"})
 	}
 	return vs
 }
